@@ -4,3 +4,4 @@ CHECK_DEADLOCK FALSE
 CONSTANTS
   MaxBlocks = 3
   WriteConvention = "count"
+  ReadConvention = "loop"
